@@ -9,6 +9,10 @@ OBLIGATIONS = [
     dict(BASE, name="pass_composition", defs=["K_PASS", "NEV=4", "STRINGSIZE=16"],
          functions=["asmpars.c:EnterIntSymbolWithFlags", "CreateSymbolEntry", "EnterSymbol", "SymbolAdder", "LookupSymbol", "FindNode", "FindLocNode", "FindNode_FNode", "ResetSymbolDefines"],
          bounds="2 symbols, previous-pass table arbitrary, 4 events {use L, use F, define L:=v, define F:=v} with arbitrary 64-bit values, pass number 1..3", timeout=1200),
+    dict(BASE, name="forward_lookup", defs=["K_FORWARD", "STRINGSIZE=16"],
+         functions=["asmpars.c:LookupSymbol", "FindNode", "FindNode_FSpec", "FindNode_FNode", "EnterSymbol"],
+         bounds="first pass, one section inside the global scope, a global symbol L; FORWARD L announced or not; reference spelled L or l; case-sensitive mode on/off",
+         assumes=BASE["assumes"][:1] + ["name handling cut to one-letter names (NLS_UpString = ASCII upper-casing of that letter)", "one section level, FORWARD list of one entry"]),
 ]
 META = dict(outside=["termination for programs whose size selection oscillates (liveness over unboundedly many passes)",
                      "size selection of the code generators (68000, 6809, 68HC11, 6502, 8086)", "label fix-up after padding (known livelock, see DESIGN.md; harness pending)",
